@@ -233,6 +233,59 @@ fn op_decode_bits(c: &Value, ev: &mut Map<String, Value>) -> Result<(), String> 
     Ok(())
 }
 
+/// C20, exhaustively: a 16-bit field of a message is swept over lo..=hi; for every value the strict decode
+/// must be exactly Err([variant(value)]).  The values for which it is not are returned (with what came
+/// out instead); the specification validates the scheme on the sample values it is given.
+fn op_fault_sweep(c: &Value, ev: &mut Map<String, Value>) -> Result<(), String> {
+    let template = json_bytes(&c["in"])?;
+    let at = c["at"].as_u64().ok_or("at")? as usize;
+    let lo = c["lo"].as_u64().unwrap_or(0) as u32;
+    let hi = c["hi"].as_u64().unwrap_or(65535) as u32;
+    let variant = c["variant"].as_str().ok_or("variant")?.to_string();
+    if at + 2 > template.len() {
+        return Err("field outside the template".into());
+    }
+    let o = guarded(|| {
+        let mut anomalies = Vec::new();
+        let mut tested = 0u64;
+        for x in lo..=hi {
+            let mut b = template.clone();
+            b[at..at + 2].copy_from_slice(&(x as u16).to_be_bytes());
+            let res = catch_unwind(AssertUnwindSafe(|| {
+                let mut r = SliceReader::from(&b[..]);
+                Message::<&[u8]>::try_read_validate(&mut r, strict())
+            }));
+            tested += 1;
+            let ok = match &res {
+                Ok(Err(es)) if es.len() == 1 => {
+                    let j = err_to_json(&es[0]);
+                    j["v"] == variant.as_str() && j["a"] == json!([x])
+                }
+                _ => false,
+            };
+            if !ok && anomalies.len() < 50 {
+                let out = match res {
+                    Ok(r) => msg_result_to_json(&r),
+                    Err(_) => json!({"t": "panic"}),
+                };
+                anomalies.push(json!([x, out]));
+            }
+        }
+        (anomalies, tested)
+    });
+    match o {
+        Ok((anomalies, tested)) => {
+            ev.insert("anomalies".into(), Value::Array(anomalies));
+            ev.insert("tested".into(), json!(tested));
+            ev.insert("out".into(), json!({"t": "ok"}));
+        }
+        Err(p) => {
+            ev.insert("out".into(), p);
+        }
+    }
+    Ok(())
+}
+
 /// decode(b) and decode(b ++ suffix) (C08)
 fn op_decode_suffix(c: &Value, ev: &mut Map<String, Value>) -> Result<(), String> {
     let input = json_bytes(&c["in"])?;
@@ -1029,6 +1082,7 @@ pub fn run_op(c: &Value, ev: &mut Map<String, Value>) -> Result<(), String> {
         "decode_seq" => op_decode_seq(c, ev),
         "decode_opts" => op_decode_opts(c, ev),
         "decode_bits" => op_decode_bits(c, ev),
+        "fault_sweep" => op_fault_sweep(c, ev),
         "decode_suffix" => op_decode_suffix(c, ev),
         "avps_concat" => op_avps_concat(c, ev),
         "ctl_records" => op_ctl_records(c, ev),
